@@ -243,7 +243,8 @@ class PureRun:
             if c.state is not None:
                 leaves, treedef = ps.jax.tree_util.tree_flatten(c.state)
                 blob = pickle.dumps([np.asarray(x) for x in leaves])
-                c.state = ps.jax.tree_util.tree_unflatten(treedef, pickle.loads(blob))
+                # the restarted process hands JAX arrays to the library again (users never pass NumPy leaves to eager code)
+                c.state = ps.jax.tree_util.tree_unflatten(treedef, [ps.jax.numpy.asarray(x) for x in pickle.loads(blob)])
         if clear:
             ps.jax.clear_caches()
             self.stats.probe("clear_caches")
@@ -389,12 +390,85 @@ def generate_and_run(ps: PureSys, rng: np.random.Generator, stats: Stats, tier: 
     return ops, run
 
 
+def history_digest(adapter: Any, cfg: Dict[str, Any], seed: int, n_keys: int = 3, n_steps: int = 6) -> List[str]:
+    """Responses of a fixed request sequence (keys and mask-legal actions drawn from a PRNG seeded by
+    (seed, env, config) only) on a freshly built instance: one digest per response."""
+    import jax
+    import jax.numpy as jnp
+
+    env = adapter.build(cfg)
+    reset, step = jax.jit(env.reset), jax.jit(env.step)
+    rng = util.sub_rng(seed, "c02xhist", adapter.name, cfg["id"])
+    out: List[str] = []
+    for _ in range(n_keys):
+        s, ts = reset(jax.random.PRNGKey(int(rng.integers(0, 2**31 - 1))))
+        out.append(util.tree_digest(util.to_np((s, ts))))
+        for _t in range(n_steps):
+            if int(np.asarray(ts.step_type)) == 2:
+                break
+            m = adapter.env_mask(util.to_np(ts.observation)) if adapter.mask_mode else None
+            a = adapter.pick(m, rng)[0] if (m is not None and m.any()) else adapter.inspec_action(env, rng)
+            s, ts = step(s, jnp.asarray(a, dtype=env.action_spec.dtype))
+            out.append(util.tree_digest(util.to_np((s, ts))))
+    return out
+
+
+def other_history(adapter: Any, cfg_b: Dict[str, Any], seed: int) -> None:
+    """A different call history in the same process: another configuration of the same environment class
+    is built and used (jit and eager) before the configuration under test."""
+    import jax
+
+    history_digest(adapter, cfg_b, seed + 1, n_keys=1, n_steps=3)
+    env = adapter.build(cfg_b)
+    s, ts = env.reset(jax.random.PRNGKey(seed % 1000))
+    env.step(s, env.action_spec.generate_value())
+
+
+def xhist_after_task(task: Dict[str, Any]) -> Dict[str, Any]:
+    from jsim import envs
+
+    t0 = time.time()
+    adapter = envs.get(task["env"])
+    other_history(adapter, task["first_cfg"], task["seed"])
+    dg = history_digest(adapter, task["cfg"], task["seed"])
+    return {"task": {"prop": "C02", "env": task["env"], "cfg": task["cfg"]["id"] + "<after>" + task["first_cfg"]["id"], "shard": task["shard"]},
+            "runs": 1, "attempted": 1, "steps": len(dg), "faults": {"OTHER_HISTORY": 1}, "policies": {}, "transports": {"JIT": len(dg)},
+            "probes": {}, "checks": {"history_digests": len(dg)}, "states": b"", "n_states": 0, "digests": [], "nontrivial": [], "samples": [],
+            "violations": [], "det_ok": None, "wall": time.time() - t0,
+            "xhist": {"env": task["env"], "cfg": task["cfg"], "first_cfg": task["first_cfg"], "role": "after", "digest": dg}}
+
+
+def xhist_compare(results: List[Dict[str, Any]], seed: int) -> List[Dict[str, Any]]:
+    """Engine-side history check: the responses of configuration A must not depend on whether another
+    configuration B of the same class was used earlier in the same process."""
+    solo = {(r["xhist"]["env"], r["xhist"]["cfg"]["id"]): r["xhist"] for r in results if r.get("xhist", {}).get("role") == "solo"}
+    out = []
+    for r in results:
+        x = r.get("xhist")
+        if not x or x["role"] != "after":
+            continue
+        ref = solo.get((x["env"], x["cfg"]["id"]))
+        if ref is None or ref["digest"] == x["digest"]:
+            continue
+        k = [i for i, (p, q) in enumerate(zip(ref["digest"], x["digest"])) if p != q]
+        first = k[0] if k else min(len(ref["digest"]), len(x["digest"]))
+        out.append({"property": "C02", "env": x["env"], "config": x["cfg"], "seed": seed, "shard": 0, "run": 0,
+                    "monitor": "history_independence", "class": "responses_depend_on_earlier_use_of_another_configuration",
+                    "detail": f"response #{first} of the fixed request sequence on {x['cfg']['id']} differs between a fresh process and a process "
+                              f"that had used {x['first_cfg']['id']} before",
+                    "ops": {"xhist": True, "first_cfg": x["first_cfg"]}, "ops_unminimised": {}})
+    return out
+
+
 def run_task(prop: Any, task: Dict[str, Any]) -> Dict[str, Any]:
     from jsim import envs
 
+    if task.get("kind") == "xhist_after":
+        return xhist_after_task(task)
     adapter = envs.get(task["env"])
     cfg = task["cfg"]
     t0 = time.time()
+    xh = {"env": task["env"], "cfg": cfg, "role": "solo", "digest": history_digest(adapter, cfg, task["seed"])} if task["shard"] == 0 else None
     ps = PureSys(adapter, cfg)
     stats = Stats()
     digests: List[int] = []
@@ -462,13 +536,43 @@ def run_task(prop: Any, task: Dict[str, Any]) -> Dict[str, Any]:
         "transports": stats.transports, "probes": stats.probes, "checks": stats.checks,
         "states": np.fromiter(stats.states, dtype=np.uint64, count=len(stats.states)).tobytes(), "n_states": len(stats.states),
         "digests": digests, "nontrivial": nontrivial, "samples": samples, "violations": violations, "det_ok": det_ok,
-        "wall": time.time() - t0,
+        "wall": time.time() - t0, "xhist": xh,
     }
+
+
+def replay_xhist(v: Dict[str, Any], path: str) -> int:
+    """Two fresh interpreters: A alone, and B-then-A; the response digests must agree."""
+    import json
+    import os
+    import subprocess
+    import sys
+
+    outs = []
+    for first in (None, v["ops"]["first_cfg"]):
+        code = ("import json,sys; from jsim.worker import _init_jax; _init_jax(); from jsim import envs, puresim; "
+                "a=envs.get(sys.argv[1]); cfg=json.loads(sys.argv[2]); first=json.loads(sys.argv[3]); seed=int(sys.argv[4]); "
+                "first and puresim.other_history(a, first, seed); print('XD', json.dumps(puresim.history_digest(a, cfg, seed)))")
+        p = subprocess.run([sys.executable, "-c", code, v["env"], json.dumps(v["config"]), json.dumps(first), str(v["seed"])],
+                           capture_output=True, text=True, env=dict(os.environ), timeout=1800)
+        line = [ln for ln in p.stdout.splitlines() if ln.startswith("XD ")]
+        if not line:
+            print(f"replay: helper interpreter failed: {p.stderr[-400:]}")
+            return 2
+        outs.append(json.loads(line[0][3:]))
+    if outs[0] != outs[1]:
+        print(f"VIOLATION property=C02 replay={path}")
+        print(f"  env={v['env']} config={v['config']['id']} monitor={v['monitor']} class={v['class']}: responses differ between a fresh process and "
+              f"one that used {v['ops']['first_cfg']['id']} first")
+        return 1
+    print(f"replay: no violation of class {v['monitor']}/{v['class']} reproduced from {path}")
+    return 0
 
 
 def replay(v: Dict[str, Any], path: str) -> int:
     from jsim import envs
 
+    if isinstance(v.get("ops"), dict) and v["ops"].get("xhist"):
+        return replay_xhist(v, path)
     ps = PureSys(envs.get(v["env"]), v["config"])
     try:
         execute(ps, v["ops"], Stats())
